@@ -11,7 +11,7 @@
 
    Families (variable fam), all for fmt in {lz10, lz11}:
      small  every token sequence of <= Depth tokens over literals {a,b} and references
-            of length 3,4(,5) with displacement 1,2,3 or Len(out) (overlapping copies,
+            of length 3,4 with displacement 1,2,3 or Len(out) (overlapping copies,
             displacement 1, reach to the first byte)
      group  a literal run of 6..8 / 14..16 bytes, then <= 2 such tokens: references
             on both sides of a flag-byte boundary
@@ -37,18 +37,19 @@ VARIABLES fam, fmt, ts
 vars == <<fam, fmt, ts>>
 
 Depth == IF Quick THEN 4 ELSE 5
-SmallLens == IF Quick THEN {3, 4} ELSE {3, 4, 5}
+SmallLens == {3, 4}
 SmallMenu(m) == { Lit(A), Lit(B) }
                 \cup { Ref(l, dd) : l \in SmallLens, dd \in { x \in {1, 2, 3, m} : 1 <= x /\ x <= m } }
 
 GroupRuns == IF Quick THEN {7, 8, 15} ELSE {6, 7, 8, 14, 15, 16}
 EdgeRuns == IF Quick THEN {1, 3, 17, 4096}
-            ELSE {1, 2, 3, 4, 15, 16, 17, 18, 272, 273, 4094, 4095, 4096, 4097, 5000}
+            ELSE {1, 2, 3, 4, 15, 16, 17, 18, 272, 273, 4095, 4096, 4097}
+BigRun(n) == n >= 4000
 BLens(F) == { l \in (IF Quick THEN {3, 16, 17, 18, 273, 4096, 4097}
                      ELSE {3, 4, 16, 17, 18, 19, 272, 273, 4096, 4097}) : l <= F.MaxLen }
 EdgeDisps(m) == { x \in {1, 2, 3, m - 1, m, 4095, 4096} : 1 <= x /\ x <= m /\ x <= 4096 }
 \* the longest LZ11 reference, a few cases only
-HugeOK(F, m) == F.MaxLen >= 65808 /\ m \in (IF Quick THEN {1, 4096} ELSE {1, 3, 4096, 5000})
+HugeOK(F, m) == F.MaxLen >= 65808 /\ m \in (IF Quick THEN {1, 4096} ELSE {1, 3, 4096, 4097})
 
 \* GEN_FAM selects one family (the check runs the families as separate TLC processes)
 Fams == IF "GEN_FAM" \in DOMAIN IOEnv THEN {IOEnv.GEN_FAM} ELSE {"small", "group", "edge", "fixed"}
@@ -72,8 +73,11 @@ Extend ==
      /\ \E n \in EdgeRuns : ts' = <<Run(n, 11)>>
   \/ /\ fam = "edge" /\ k = 1
      /\ \/ \E l \in BLens(F), dd \in EdgeDisps(m) : ts' = Append(ts, Ref(l, dd))
-        \/ HugeOK(F, m) /\ \E dd \in {1, m} : ts' = Append(ts, Ref(65808, dd))
-  \/ /\ fam = "edge" /\ k = 2 /\ ts[2].len < 65808 /\ (ts[1].len <= 18 \/ (~Quick /\ ts[2].len <= 18))
+        \/ HugeOK(F, m) /\ \E dd \in {1, Min(m, 4096)} : ts' = Append(ts, Ref(65808, dd))
+  \/ /\ fam = "edge" /\ k = 2 /\ ts[2].len < 65808
+     /\ \/ ts[1].len <= 18
+        \/ ~Quick /\ ~BigRun(ts[1].len)
+        \/ ~Quick /\ ts[2].len \in {3, 18} /\ ts[2].disp \in {1, 4096}
      /\ \E t \in {Lit(B)} \cup { Ref(3, dd) : dd \in { x \in {1, m, 4096} : x <= m /\ x <= 4096 } } : ts' = Append(ts, t)
 
 Next == Extend /\ UNCHANGED <<fam, fmt>>
@@ -114,6 +118,7 @@ EmitSeq ==
       e == Encode(F, ts)
       k == Len(ts)
       small == fam \in {"small", "group"}
+      full  == k <= 4        \* sequences of 5 tokens (thorough) get the cheaper variants only
   IN
   \* the exact stream must expand to what the token semantics says (generator self-check)
   /\ Assert(n = 0 \/ Decode(F, e, 0).out = Expand(ts), "generator: decoder and Expand disagree")
@@ -121,11 +126,11 @@ EmitSeq ==
   /\ (F.ext \/ small) => Line("wrapped", Wrap(n % 256, 7, 0, e))
   \* truncations: every proper prefix (small), those that cut the tokens after the run (group),
   \* header / last token (edge)
-  /\ \A c \in (CASE fam = "small" -> 0..(Len(e) - 1)
+  /\ \A c \in (CASE fam = "small" -> IF full THEN 0..(Len(e) - 1) ELSE {Len(e) - 1}
                  [] fam = "group" -> { x \in 0..(Len(e) - 1) : x >= Len(e) - 7 }
                  [] OTHER -> { x \in {4, Len(e) - 2, Len(e) - 1} : 4 <= x /\ x < Len(e) }) :
         Line("cut", Prefix(e, c))
-  /\ (small /\ k >= 1 /\ (~Quick \/ k = Depth \/ fam = "group")) =>
+  /\ (small /\ k >= 1 /\ (k = 4 \/ fam = "group")) =>
         \A c \in { x \in 4..(Len(e) + 3) : x >= Len(e) - 3 \/ fam = "small" } :
            Line("cutwrapped", Prefix(Wrap(0, 0, 0, e), c))
   \* a reference reaching before the start of the output, at every token position
@@ -135,17 +140,17 @@ EmitSeq ==
            rest == IF i >= k THEN <<>> ELSE SubSeq(ts, i + 1, k)
        IN /\ m + 1 <= 4096 =>
                /\ Line("before", EncodeN(F, pre \o <<Ref(3, m + 1)>> \o rest, n + 3))
-               /\ small => Line("beforewrapped", Wrap(0, 0, 0, EncodeN(F, pre \o <<Ref(F.MaxLen, m + 1)>>, m + F.MaxLen)))
-          /\ (small /\ m + 1 < 4096) => Line("beforefar", EncodeN(F, pre \o <<Ref(4, 4096)>> \o rest, n + 4))
+               /\ (small /\ full) => Line("beforewrapped", Wrap(0, 0, 0, EncodeN(F, pre \o <<Ref(F.MaxLen, m + 1)>>, m + F.MaxLen)))
+          /\ (small /\ full /\ m + 1 < 4096) => Line("beforefar", EncodeN(F, pre \o <<Ref(4, 4096)>> \o rest, n + 4))
   \* statement-silent variants
   /\ k >= 1 =>
        /\ Last(ts).k = "ref" => Line("over", EncodeN(F, ts, n - Last(ts).len + 1))
-       /\ (small \/ ~Quick) =>
+       /\ (small \/ (~Quick /\ ~BigRun(ts[1].len))) =>
             /\ Line("trail", e \o <<255>>)
-            /\ Line("trail", e \o <<0>>)
-            /\ Line("declminus", EncodeN(F, ts, n - 1))
-            /\ Line("declplus", EncodeN(F, ts, n + 1))
-  /\ (small /\ F.ext) => Line("ext", EncodeExt(F, ts, n))
+            /\ full => /\ Line("trail", e \o <<0>>)
+                       /\ Line("declminus", EncodeN(F, ts, n - 1))
+                       /\ Line("declplus", EncodeN(F, ts, n + 1))
+  /\ (small /\ full /\ F.ext) => Line("ext", EncodeExt(F, ts, n))
 
 TypeBytes == {0, 1, 16, 17, 18, 19, 20, 32, 128, 255}
 EmitFixed ==
